@@ -85,7 +85,7 @@ contract(
     ),
     verify=False,
     assumed=True,
-    bounded=("bounded/transfer_faults.py", 40, 500),
+    bounded=("bounded/transfer_faults.py", 60, 900),
     props=["C04", "C11"],
     doc="[to be verified against ObjectDB.add] every requested object is placed in dest or returned as failed; nothing else changes",
 )
